@@ -50,6 +50,25 @@ CASES = [
     ("m25_web_next_occurrence_restart", "detect_website: after a false positive the search restarts at the TLD itself, not after it (total_index += len(tld) dropped)",
      [(WEB, "                    total_index += len(tld)\n                    end_index = working_string[total_index:].find(tld)",
        "                    end_index = working_string[total_index:].find(tld)")]),
+    ("m30_kbd_run_on_other_layout", "seeded C05-4: keyboard_run_list = dict(current_runs): a run may continue on a different layout",
+     "SEEDED:C05-4"),
+    ("m31_kbd_run_list_one_expression", "seeded C05-6: the keyboard_run_list bookkeeping 'tidied' into one expression",
+     "SEEDED:C05-6"),
+    ("m32_kbd_min_run_3", "detect_keyboard_walk: min_keyboard_run=3 (the default the parser uses)",
+     [(KB, "def detect_keyboard_walk(password, min_keyboard_run=4):", "def detect_keyboard_walk(password, min_keyboard_run=3):")]),
+    ("m33_kbd_class_mix_test_dropped", "interesting_keyboard: one character class is enough (`>= 2` -> `>= 1`)",
+     [(KB, "    if (alpha + special + digit) >= 2:", "    if (alpha + special + digit) >= 1:")]),
+    ("m34_kbd_right_neighbour_dropped", "is_next_on_keyboard: on the same row only the left neighbour counts",
+     [(KB, "            if (cur_data['pos'] == past_data['pos'] - 1) or (cur_data['pos'] == past_data['pos'] + 1):",
+       "            if (cur_data['pos'] == past_data['pos'] - 1):")]),
+    ("m35_kbd_shift_row_number", "find_keyboard_row_column: the shifted second row is reported as row 3",
+     [(KB, "                'row': 2,\n                'pos': board['s_row2'].index(char)", "                'row': 3,\n                'pos': board['s_row2'].index(char)")]),
+    ("m36_kbd_prefix_slice_off_by_one", "detect_keyboard_walk: the section before a walk is one character too long",
+     [(KB, "                            (password[0:index-len(cur_combo)], None))", "                            (password[0:index-len(cur_combo)+1], None))")]),
+    ("m37_kbd_combo_restart_empty", "detect_keyboard_walk: after a run ends the new run starts empty (`cur_combo = [value]` -> `[]`)",
+     [(KB, "            cur_combo = [value]\n", "            cur_combo = []\n")]),
+    ("m38_kbd_interesting_filter_shifted", "interesting_keyboard: the 'er' filter looks at combo[0], combo[1] instead of combo[1], combo[2]",
+     [(KB, "    if (combo[1] == 'e') and (combo[2] == 'r'):", "    if (combo[0] == 'e') and (combo[1] == 'r'):")]),
     # ---------------- harmless edits: the check must stay OK
     ("h01_comments_docstrings_blank_lines", "comments, docstrings and blank lines changed in the three files",
      [(MW, "        # pointer to the current position in the lookup table\n", "        # where we are in the trie\n\n\n"),
@@ -75,6 +94,48 @@ CASES = [
       (EM, "                provider = working_string[marker_index + 1:end_index]\n", "                provider = working_string[marker_index + 1:end_index]\n                found = working_string[0:end_index]\n"),
       (WEB, "            host = working_string[start_index:total_index+len(tld)]\n", ""),
       (WEB, "            start_of_url = -1\n", "            start_of_url = -1\n            host = working_string[start_index:total_index+len(tld)]\n")]),
+    ("h10_kbd_comments_and_renames", "keyboard_walk.py: comments / docstring changed, locals renamed (cur_combo->run_chars, pos_list->places, past_name->lname, value->ch in interesting_keyboard)",
+     "RENAME_KB"),
+    ("h11_kbd_equivalent_spellings", "keyboard_walk.py: swapped == operands in is_next_on_keyboard, the last two ifs of detect_keyboard_walk merged with `and`, parenthesised conditions",
+     [(KB, "        if cur_data['row'] == past_data['row']:\n            if (cur_data['pos']", "        if past_data['row'] == cur_data['row']:\n            if (cur_data['pos']"),
+      (KB, "        elif cur_data['row'] == past_data['row'] + 1:", "        elif past_data['row'] + 1 == cur_data['row']:"),
+      (KB, """    if len(cur_combo) >= min_keyboard_run:
+
+        # Look at saving this keyboard combo
+        #
+        # See if the keyboard combo is interesting enough to save
+        if interesting_keyboard(cur_combo):
+
+            # Save the results
+            found_list.append(''.join(cur_combo))
+
+            # Update base structure mask
+            #
+            # Update any unprocessed sections before the current run
+            if len(cur_combo) != len(password):
+                section_list.append(
+                    (password[0:len(password)-len(cur_combo)], None))
+
+            # Update the mask for the current run
+            section_list.append((''.join(cur_combo), "K"+str(len(cur_combo))))
+
+        # Not treating it as a keyboard combo since it is not intersting
+        else:
+            section_list.append((password, None))
+
+    # No keyboard run found
+    else:
+        section_list.append((password, None))
+""", """    if (len(cur_combo) >= min_keyboard_run) and interesting_keyboard(cur_combo):
+        # Save the results
+        found_list.append(''.join(cur_combo))
+        if len(cur_combo) != len(password):
+            section_list.append(
+                (password[0:len(password)-len(cur_combo)], None))
+        section_list.append((''.join(cur_combo), "K"+str(len(cur_combo))))
+    else:
+        section_list.append((password, None))
+""")]),
     # ---------------- outside the accepted subset: fail closed, VIOLATION
     ("t01_mw_memo_table", "seeded C05-3: _identify_multi memoised in self._multi_cache (aliased result list): outside the subset",
      "SEEDED:C05-3"),
@@ -92,12 +153,19 @@ RENAMES = [
 ]
 
 
-def rename_locals(scratch):
+RENAMES_KB = [
+    (KB, "detect_keyboard_walk", {"cur_combo": "run_chars", "pos_list": "places"}),
+    (KB, "is_next_on_keyboard", {"past_name": "lname"}),
+    (KB, "interesting_keyboard", {"value": "ch"}),
+]
+
+
+def rename_locals(scratch, renames=None):
     """rename locals inside one function by token (tokenize keeps comments and layout)"""
     import ast
     import io
     import tokenize
-    for rel, fname, table in RENAMES:
+    for rel, fname, table in (renames or RENAMES):
         path = os.path.join(scratch, rel)
         src = open(path, encoding="utf-8", newline="").read()
         tree = ast.parse(src)
@@ -132,6 +200,13 @@ def main():
         subprocess.run(["git", "-C", scratch, "checkout", "-q", "."], check=True)
         if edits == "RENAME":
             rename_locals(scratch)
+        elif edits == "RENAME_KB":
+            rename_locals(scratch, RENAMES_KB)
+            path = os.path.join(scratch, KB)
+            src = open(path, encoding="utf-8", newline="").read()
+            src = src.replace("    # Find the keyboard position of the current character", "    # where is this key?", 1)
+            src = src.replace("    Finds if a new key is next to the previous key", "    Is the new key a neighbour of the previous one?", 1)
+            open(path, "w", encoding="utf-8", newline="").write(src)
         elif isinstance(edits, str) and edits.startswith("SEEDED:"):
             patch = os.path.join(verif, "seeded", edits.split(":")[1], "patch.diff")
             subprocess.run(["git", "-C", scratch, "apply", patch], check=True)
